@@ -84,8 +84,39 @@ fn check_case(prog: &T, env: &T, flags: ClvmFlags, acc: &mut Acc, space: &str) {
     });
 }
 
+/// start from a non-initial process state: dialects with NON-standard tables are built and used before (and, at the
+/// end, after) the standard-table comparison; each must honour its own table, and none may leak into the others
+fn custom_table_probe(acc: &mut Acc, when: &str) {
+    use crate::tree::{atom, list, nil, quote};
+    // table A: only op_add -> 17 and op_sha256 -> 3 ; table B: op_add -> 40, op_subtract -> 16
+    let tabs: Vec<(&str, Vec<(&str, u8)>)> = vec![("A", vec![("op_add", 17), ("op_sha256", 3)]), ("B", vec![("op_add", 40), ("op_subtract", 16)])];
+    for (tn, tab) in tabs {
+        let map: HashMap<String, Vec<u8>> = tab.iter().map(|(n, c)| (n.to_string(), vec![*c])).collect();
+        let d = RuntimeDialect::new(map, vec![1], vec![2], ClvmFlags::empty());
+        for (code, expect) in [(17u8, if tn == "A" { Some(5i128) } else { None }), (40, if tn == "B" { Some(5) } else { None }), (16, if tn == "B" { Some(1) } else { None })] {
+            let p = list(&[atom(&[code]), quote(atom(&[3])), quote(atom(&[2]))]);
+            let o = with_loaded(&p, &nil(), Enc::Inline, |l| l.run(&d, 0));
+            acc.add("runs", 1);
+            acc.inc("custom_table_probes");
+            let want = expect.map(|v| t_digest(&crate::tree::int_atom(v)));
+            let ok = match want {
+                Some(dg) => o.ok && o.digest == dg,
+                None => !o.ok || o.digest == t_digest(&nil()), // unknown operator: nil (or an error), never an arithmetic result
+            };
+            if !ok {
+                acc.violation(format!("custom table {tn} ({when} the standard-table runs): opcode {code} on (3 2)"), format!("got {} — the dialect does not honour its own table", o.brief()));
+            }
+        }
+    }
+}
+
 pub fn run(ctx: &Ctx) -> Report {
     let mut rep = Report::new("C30", "exploration");
+    {
+        let mut acc = Acc::default();
+        custom_table_probe(&mut acc, "before");
+        rep.absorb(acc);
+    }
     let mut flagsets = vec![];
     for m in [ClvmFlags::empty(), ClvmFlags::NEW_COST_MODEL, ClvmFlags::MALACHITE, ClvmFlags::NEW_COST_MODEL | ClvmFlags::MALACHITE] {
         for r in [ClvmFlags::empty(), ClvmFlags::NO_UNKNOWN_OPS, ClvmFlags::CANONICAL_INTS, ClvmFlags::LIMITS, ClvmFlags::ENABLE_GC | ClvmFlags::DISABLE_OP] {
@@ -93,7 +124,7 @@ pub fn run(ctx: &Ctx) -> Report {
         }
     }
     if ctx.quick() {
-        flagsets = vec![flagsets[0], flagsets[1], flagsets[6], flagsets[12], flagsets[3], flagsets[9], flagsets[19]];
+        flagsets = vec![flagsets[0], flagsets[1], flagsets[6], flagsets[12], flagsets[3], flagsets[8], flagsets[9], flagsets[19]];
     }
     let mut ops: Vec<Vec<u8>> = standard_table().iter().map(|(_, c)| vec![*c]).collect();
     ops.extend([vec![15u8], vec![28], vec![31], vec![35], vec![66], vec![0x7f], vec![0x80], vec![0x00], vec![0xff]]);
@@ -119,6 +150,11 @@ pub fn run(ctx: &Ctx) -> Report {
             acc.maybe_sample(sample_key(seed, i ^ fnv(sp.name.as_bytes())), || json!({"space": sp.name, "prog": p.hex(), "flags": format!("{:#x}", flagsets[(i % nf) as usize].bits())}));
         });
         notes.push(json!({"space": sp.name, "wall_s": t_space.elapsed().as_secs_f64(), "programs": sp.total, "flag_sets": nf}));
+        rep.absorb(acc);
+    }
+    {
+        let mut acc = Acc::default();
+        custom_table_probe(&mut acc, "after");
         rep.absorb(acc);
     }
     rep.note("spaces", json!(notes));
